@@ -336,6 +336,36 @@ func runC17(c *fw.Case) {
 			if !ok || !unchanged(before, after, "flush") {
 				return
 			}
+			// every third flush transition continues with a compaction cycle DURING which the handles receive a second
+			// Open(): it must be refused, and — like every refused call — change nothing (the cycle completes, reads stay)
+			if flushes%3 == 0 {
+				var openErrs []error
+				refusedOpen := func() { openErrs = append(openErrs, dbS.Open(), dbB.Open()) }
+				// (before the merge starts, and when its output is complete and flagged but not yet installed)
+				simpledb.VerifSetPoint("compaction.selected", refusedOpen)
+				simpledb.VerifSetPoint("compaction.flagWritten", refusedOpen)
+				_, e1 := dbS.VerifCompactOnce()
+				_, e2 := dbB.VerifCompactOnce()
+				simpledb.VerifSetPoint("compaction.selected", nil)
+				simpledb.VerifSetPoint("compaction.flagWritten", nil)
+				note("compaction cycle with a refused Open() inside (%d Open calls)", len(openErrs))
+				for _, oe := range openErrs {
+					if oe == nil {
+						c.Violate("api/lifecycle/second-open-accepted", "Open() on an open handle returned nil\n%s", ctx())
+						return
+					}
+					rejected++
+				}
+				c.Obs("refused_open_calls_during_a_compaction", int64(len(openErrs)))
+				if e1 != nil || e2 != nil {
+					c.Violate("api/lifecycle/refused-open-disturbed-a-compaction", "a compaction cycle during which Open() was refused failed: %v / %v\n%s", e1, e2, ctx())
+					return
+				}
+				after2, ok := readAll("after-refused-open")
+				if !ok || !unchanged(before, after2, "refused Open during a compaction") {
+					return
+				}
+			}
 			continue
 		default: // clean restart: reads must not change
 			before, ok := readAll("before-reopen")
